@@ -268,7 +268,7 @@ def run(ctx: Context) -> None:
     r01e(ctx)
     common.optional_dereferences(
         ctx, "R01d", "no parameter or local of the parser that may be None is dereferenced unguarded on any path",
-        lambda rel: not rel.startswith(("pymarkdown/plugins/", "pymarkdown/plugin_manager/", "pymarkdown/extension_manager/")), 150,
+        lambda rel: not rel.startswith(("pymarkdown/plugins/", "pymarkdown/plugin_manager/", "pymarkdown/extension_manager/")), 300,
     )
     c15.r15a(ctx)
     ctx.rules[-1].rule_id = "R01b"
